@@ -163,11 +163,24 @@ pub fn run(args: &[&str]) -> Option<String> {
                 match guarded(AssertUnwindSafe(|| api::to_semantic_tokens(&m, &v))) {
                     None => "PANIC".into(),
                     Some(ts) if ts.is_empty() => "-".into(),
-                    Some(ts) => ts
-                        .iter()
-                        .map(|t| format!("{}:{}:{}:{}", t.0, t.1, t.2, t.3))
-                        .collect::<Vec<_>>()
-                        .join(","),
+                    Some(ts) => {
+                        // the type index is decoded with the server's own legend (its order is the server's
+                        // choice) into the request's numbering: namespace 0, function 1, type 2
+                        let legend = api::semantic_token_type_names();
+                        let canon = |i: u32| -> String {
+                            match legend.get(i as usize).map(|s| s.as_str()) {
+                                Some("namespace") => "0".into(),
+                                Some("function") => "1".into(),
+                                Some("type") => "2".into(),
+                                Some(other) => format!("?{other}"),
+                                None => format!("?{i}"),
+                            }
+                        };
+                        ts.iter()
+                            .map(|t| format!("{}:{}:{}:{}", t.0, t.1, t.2, canon(t.3)))
+                            .collect::<Vec<_>>()
+                            .join(",")
+                    }
                 },
             )
         }
